@@ -196,14 +196,20 @@ fn bv_text(v: &BitVecValue, rng: &mut SmallRng) -> String {
 fn sort_text(w: u32) -> String { if w == 1 { "Bool".into() } else { format!("(_ BitVec {w})") } }
 
 /// a model value in one of the forms solvers print; returns (text, tagged value)
-fn model_value(rng: &mut SmallRng) -> (String, J, J, &'static str) {
+fn model_value(rng: &mut SmallRng) -> (String, J, J, &'static str, Vec<(String, u32)>) {
     let ws = [1u32, 2, 3, 4, 8, 31, 32, 33, 64, 65, 128, 129];
     if rng.random_bool(0.5) {
         let w = *ws.choose(rng).unwrap();
         let v = rnd_bv(rng, w);
         let mut t = bv_text(&v, rng);
-        if rng.random_range(0..5) == 0 { t = format!("(let ((a!1 {t})) a!1)"); }
-        (t, bvval(&v), type_json(Type::BV(w)), "")
+        let mut bound = vec![];
+        match rng.random_range(0..10) {
+            0 | 1 => { t = format!("(let ((a!1 {t})) a!1)"); bound.push(("a!1".to_string(), w)); }
+            // an inner binding shadows an outer one of the same name
+            2 => { let o = bv_text(&rnd_bv(rng, w), rng); t = format!("(let ((a!1 {o})) (let ((a!1 {t})) a!1))"); bound.push(("a!1".to_string(), w)); }
+            _ => {}
+        }
+        (t, bvval(&v), type_json(Type::BV(w)), "", bound)
     } else {
         let iw = *[1u32, 2, 3, 8].choose(rng).unwrap();
         let dw = *[1u32, 2, 8, 65].choose(rng).unwrap();
@@ -221,13 +227,17 @@ fn model_value(rng: &mut SmallRng) -> (String, J, J, &'static str) {
         }
         if !lets.is_empty() { t = format!("(let ({}) {t})", lets.iter().map(|(n, v)| format!("({n} {v})")).collect::<Vec<_>>().join(" ")); }
         let cls = if lets.len() >= 2 { "let-with-several-bindings" } else { "" };
-        (t, json!({"t":"arr","bits":[],"iw":iw,"dw":dw,"def":bits(&def),"ents":ents}), type_json(Type::Array(ArrayType { index_width: iw, data_width: dw })), cls)
+        let bound: Vec<(String, u32)> = lets.iter().map(|(n, _)| (n.clone(), dw)).collect();
+        (t, json!({"t":"arr","bits":[],"iw":iw,"dw":dw,"def":bits(&def),"ents":ents}), type_json(Type::Array(ArrayType { index_width: iw, data_width: dw })), cls, bound)
     }
 }
 
-fn read_value_record(id: &str, text: &str, want: &J, tj: &J, malformed: bool, cls: &str) -> J {
+/// `declared`: symbols of these names and widths are in the symbol table handed to the reader (a let-bound name
+/// shadows a declared symbol of the same name, so the value read must not change)
+fn read_value_record(id: &str, text: &str, want: &J, tj: &J, malformed: bool, cls: &str, declared: &[(String, u32)]) -> J {
     let mut ctx = Context::default();
-    let st: FxHashMap<String, ExprRef> = FxHashMap::default();
+    let mut st: FxHashMap<String, ExprRef> = FxHashMap::default();
+    for (n, w) in declared { let s = ctx.bv_symbol(n, *w); st.insert(n.clone(), s); }
     let r = guarded(|| parse_expr(&mut ctx, &st, text.as_bytes()));
     let (kind, got, loc) = match r {
         Ok(Ok(e)) => { let (n, ix) = export_many(&ctx, &[e]); ("ok", json!({"nodes": n, "root": ix[0]}), String::new()) }
@@ -244,8 +254,14 @@ pub fn run_c14(args: &[String]) {
     let mut rng = seed_rng(env_seed());
     load_exprs(args, &mut rng, &mut |ctx, _rng, root, id| { out.put(&readback_record(ctx, root, &id)); });
     for i in 0..flag_u(args, "--values", 0) {
-        let (text, want, tj, cls) = model_value(&mut rng);
-        vout.put(&read_value_record(&format!("v{i}"), &text, &want, &tj, false, cls));
+        let (text, want, tj, cls, bound) = model_value(&mut rng);
+        vout.put(&read_value_record(&format!("v{i}"), &text, &want, &tj, false, cls, &[]));
+        if !bound.is_empty() {
+            // the same text with the bound names (and an unrelated one) also declared as symbols
+            let mut decl = bound.clone();
+            decl.push(("unrelated".into(), 3));
+            vout.put(&read_value_record(&format!("v{i}s"), &text, &want, &tj, false, cls, &decl));
+        }
         // malformed variants: prefixes and parenthesis edits that the independent front end rejects
         if i % 4 == 0 {
             let cs: Vec<char> = text.chars().collect();
@@ -262,7 +278,7 @@ pub fn run_c14(args: &[String]) {
                 let mut nodes = vec![];
                 let wellformed = smt::tokenize(v).ok().filter(|t| t.len() == 1).and_then(|t| smt::term(&t[0], &mut nodes, &std::collections::HashMap::new()).ok()).is_some();
                 if wellformed { continue; }
-                vout.put(&read_value_record(&format!("v{i}m{k}"), v, &want, &tj, true, ""));
+                vout.put(&read_value_record(&format!("v{i}m{k}"), v, &want, &tj, true, "", &[]));
             }
         }
     }
